@@ -156,13 +156,15 @@ Render(tpl, d) == Norm(RenderRaw(tpl, d))
 
 \* ---- what a case contains (names of construct / data classes) ------------
 \* Used by the judge to attribute a deviation to the smallest set of classes.
+\* A construct contributes its structural class, plus a marker class when it is in its
+\* non-default state (condition false: "if:F" / "ife:F"; list absent ":A" or empty ":0").
+\* An if-else also is an "if".
 \*   prefix  ""  outside loops, "e/" in a loop body, "ee/" in a nested loop body
 Pfx(ls) == IF Len(ls) = 0 THEN "" ELSE IF Len(ls) = 1 THEN "e/" ELSE "ee/"
 
-Card(l) == IF Len(l) = 0 THEN "0" ELSE "+"
-
+\* non-plain literal and value classes are named without position: one class per kind of text
 SpecialVal(p, via, v) ==
-  IF ValClass(v) = "p" THEN {} ELSE {p \o "val:" \o ValClass(v) \o "@" \o via}
+  IF ValClass(v) = "p" THEN {} ELSE {"val:" \o ValClass(v)}
 
 RECURSIVE CSeq(_, _, _, _), CNode(_, _, _, _), CLoop(_, _, _, _, _, _)
 
@@ -189,19 +191,21 @@ CNode(x, d, ls, par) ==
       nest(k) == IF par = "" THEN {} ELSE {p \o "nest:" \o par \o ">" \o k}
       live == ls = <<>> \/ Inner(ls).item.k # "none"
   IN
-  CASE x.t = "lit" -> {p \o "lit"} \cup (IF LitClass(x.n) = "p" THEN {} ELSE {p \o "lit:" \o LitClass(x.n)})
+  CASE x.t = "lit" -> {p \o "lit"} \cup (IF LitClass(x.n) = "p" THEN {} ELSE {"lit:" \o LitClass(x.n)})
     [] x.t = "var" -> IF HasVar(d, x.n) THEN {p \o "var"} \cup SpecialVal(p, "var", d.vars[x.n])
                       ELSE {p \o "var:missing"}
-    [] x.t = "if"  -> {p \o "if:" \o (IF ~live THEN "-" ELSE IF CondHolds(x.n, d, ls) THEN "T" ELSE "F")}
+    [] x.t = "if"  -> {p \o "if"} \cup (IF live /\ ~CondHolds(x.n, d, ls) THEN {p \o "if:F"} ELSE {})
                       \cup nest("if") \cup CSeq(x.a, d, ls, "if")
-    [] x.t = "ife" -> {p \o "ife:" \o (IF ~live THEN "-" ELSE IF CondHolds(x.n, d, ls) THEN "T" ELSE "F")}
+    [] x.t = "ife" -> {p \o "if", p \o "ife"} \cup (IF live /\ ~CondHolds(x.n, d, ls) THEN {p \o "ife:F"} ELSE {})
                       \cup nest("if") \cup CSeq(x.a, d, ls, "if") \cup CSeq(x.b, d, ls, "if")
     [] x.t = "each" ->
          LET absent == IF ~live THEN TRUE
                        ELSE IF ls = <<>> THEN ~HasList(d, x.n)
                        ELSE ~(ItemHas(Inner(ls).item, x.n) /\ Inner(ls).item.f[x.n].k = "l")
              list == IF live THEN ListOf(x.n, d, ls) ELSE <<>>
-         IN {p \o "each:" \o x.n \o ":" \o (IF absent THEN "A" ELSE Card(list))}
+         IN {p \o "each:" \o x.n}
+            \cup (IF ~live THEN {} ELSE IF absent THEN {p \o "each:" \o x.n \o ":A"}
+                  ELSE IF list = <<>> THEN {p \o "each:" \o x.n \o ":0"} ELSE {})
             \cup nest("each")
             \cup (IF list = <<>> THEN CSeq(x.a, d, Append(ls, NoItem), "")
                   ELSE CLoop(x.a, list, 1, d, ls, {}))
@@ -225,6 +229,10 @@ Classes(tpl, d) ==
                               THEN {"ext:default"} ELSE {})
         ELSE {})
   \cup (IF d.noise THEN {"noise"} ELSE {})
+
+\* plain content: literal text and plain substitutions. They fill the branches and bodies of the
+\* constructs; a deviation is attributed to them only when the case contains nothing else.
+ContentClasses == {p \o c : p \in {"", "e/", "ee/"}, c \in {"lit", "var", "var:missing", "fld", "fld:missing", "this"}}
 
 \* ---- names a template uses (to choose the data that matters) -------------
 RECURSIVE NamesIn(_)
